@@ -9,6 +9,7 @@ import Drv.Report
 import Drv.Use
 import Drv.Sched
 import Drv.DSet
+import Drv.Student
 open Lean
 
 def dispatch (model : String) (j : Json) : Except String Json :=
@@ -17,6 +18,7 @@ def dispatch (model : String) (j : Json) : Except String Json :=
   | "diag" => Drv.Diag.run j
   | "slice" => Drv.Slice.run j
   | "dset" => Drv.DSet.run j
+  | "student" => Drv.Student.run j
   | "bonf" => Drv.Bonf.run j
   | "depgraph" => Drv.DepGraph.run j
   | "envp" => Drv.EnvP.run j
